@@ -239,6 +239,10 @@ def run(R, env):
         for o in ws:
             ns = ns_of(prog, o["args"][0])
             k, v = o["args"][2], o["args"][3]
+            if any(s_[0] == "call" and prog.body(s_[1]) is not None for s_ in subterms(k)):
+                # the old entries may be read by a (generic) loader helper: `load_legacy_entries(storage, &OLD_MAP)?`
+                from engine.analysis import resolve_terms as _rt18
+                k = _rt18(prog, k, 2)
             # element of the old map's full range
             good_k = k[0] == "field" and k[2] == "0" and k[1][0] == "payload"
             elem = k[1] if good_k else None
